@@ -71,6 +71,7 @@ type hs13fDriver struct {
 	qmax    int
 	emitted map[string]int
 	unknown []string
+	clear   []string // C07: handshake messages other than ClientHello / ServerHello / HelloRetryRequest that left in a DTLSPlaintext record
 	// what the real client was handed (for the acknowledgement-soundness predicate)
 	clientGot map[string]bool
 	flightSz  int
@@ -217,6 +218,12 @@ func (h *hs13fDriver) absorb() []string {
 				switch data[0] {
 				case 22:
 					parts = append(parts, hs13fFragName(from, b))
+					if len(b) > 0 && b[0] != 1 && b[0] != 2 {
+						h.clear = append(h.clear, fmt.Sprintf("%s#%d: handshake type %d in a DTLSPlaintext record of epoch %d", dir, idx, b[0], int(data[3])<<8|int(data[4])))
+					}
+				case 23:
+					parts = append(parts, "clear23")
+					h.clear = append(h.clear, fmt.Sprintf("%s#%d: application data in a DTLSPlaintext record", dir, idx))
 				case 21:
 					parts = append(parts, "alert")
 				default:
@@ -543,6 +550,9 @@ flush:
 	res.CErr, res.SErr = errString(r.c.hsErr), errString(r.s.hsErr)
 	if os.Getenv("VERIF_KEEP_EVENTS") != "" {
 		res.Events = r.rec.snapshot()
+	}
+	for _, c := range h.clear {
+		law("C07 cleartext: %s", c)
 	}
 	if len(h.unknown) > 0 {
 		res.Diverge = append(res.Diverge, fmt.Sprintf("unclassified datagrams %v", h.unknown))
